@@ -20,13 +20,21 @@ RULE = ("case 'bad' = (well-formed DBC or SYM text: canmatrix's own output for a
         "punctuation character, i.e. inside a switch, a quoted text, a bracket; half of the texts also as UTF-8 files with characters "
         "outside ASCII, read with the UTF-8 import option and cut inside multi-byte characters; thorough: in addition every position of "
         "the first 4000 bytes of a DBC and a SYM text): the load must not raise and every frame and signal defined wholly before the cut "
-        "Some malformed DBC lines that name an existing frame and signal stand in front of the frame's definition. keeps placement, byte order, signedness and scaling. Non-trivial = every distinct case.")
+        "keeps placement, byte order, signedness and scaling. Some malformed DBC lines that name an existing frame and signal stand in "
+        "front of the frame's definition. Truncated statements are also derived from the file itself: a complete statement of the text "
+        "(every kind equally often) cut at any length - inside a quoted text that stays open, a bracket, a number, a name, the keyword - "
+        "and inserted as a line of its own, half of the time directly in front of a statement; SYM: Var=/Mux=/ID=/DLC=/CycleTime= lines "
+        "cut before their first number is complete (thorough: every truncation of every statement of three DBC texts). "
+        "Non-trivial = every distinct case.")
 EXHAUSTIVE = {"quick": False, "thorough": False}
 PARTIAL = ["only the control skeleton of the DBC reader (dispatcher, per-line error handling as a fold) is modelled and proved; that "
            "each real handler writes nothing before a failing pattern match, the multi-line comment state and the post-processing "
            "are tied by this correspondence check", "the SYM reader is tied by correspondence only (no Lean model of its line parser)"]
 ASSUMPTIONS = ["a line that opens a quoted comment without closing it starts a multi-line comment by the format's rules and is not a "
-               "'truncated statement'; '[name' in SYM starts a new section", "malformed lines are inserted as whole lines"]
+               "'truncated statement'; '[name' in SYM starts a new section", "malformed lines are inserted as whole lines",
+               "a statement cut off from the file's own text counts as truncated when the text alone says so: no ';' left (statements that end "
+               "with ';'), no sender left (BO_), unit still open (SG_); a SYM Var=/Mux= line cut behind its length field is a complete "
+               "statement with fewer switches and is not inserted"]
 TRUSTED = ["regular expressions of the readers"]
 CORRESPONDENCE = "DBC reader stdout ('error with line no') per malformed line == CanVerif.printsError (Model/DbcLines.lean)"
 
@@ -62,7 +70,11 @@ def load(data, fmt, enc=None):
 UNKNOWN_DBC = ["FOO_ 1 2 3;", "XYZ", "BO__ 5 x", "NS_DESC_ x", "SGX_ a : 1|2", "BA_DEFX \"a\";", "CAT_DEF_ 1 x 2;", "FILTER 0 CM_", "BOX_ 16"]
 TRUNC_DBC = ["BO_ 16 F", "BO_ 16", "BO_TX_BU_ 16", "BO_TX_BU_ 16 :", "VAL_ 16 s 0", "VAL_TABLE_ t", "BA_DEF_ BO_ \"X\"", "BA_DEF_  \"X\"",
              "BA_DEF_DEF_ \"X\"", "BA_ \"X\"", "BA_ \"X\" BO_ 16", "BA_ \"X\" SG_ 16 s", "BA_ \"X\" BU_ E", "SIG_GROUP_ 16 g", "SIG_VALTYPE_ 16",
-             "SG_MUL_VAL_ 16 s", "EV_ v : 0", "CM_ BO_ 16", "CM_ SG_ 16 s", "CM_ BU_ E"]
+             "SG_MUL_VAL_ 16 s", "EV_ v : 0", "CM_ BO_ 16", "CM_ SG_ 16 s", "CM_ BU_ E",
+             # cut inside a quoted text or a bracket (an odd number of quotes: the text is still open)
+             "VAL_ 16 s 0 \"a", "VAL_ 16 s 0 \"a\" 1 \"b c", "VAL_TABLE_ t 0 \"a", "BA_DEF_ BO_ \"X", "BA_DEF_ SG_ \"X\" ENUM \"a\",\"b",
+             "BA_ \"X", "BA_ \"X\" BO_ 16 \"50 %", "BA_DEF_DEF_ \"X\" \"d", "EV_ v : 0 [0|1] \"u", "EV_ v : 0 [0|", "SG_ s : 0|8@1+ (1,0) [0|100] \"%",
+             "SG_ s : 0|8@1+ (1,"]
 WRONG_DBC = ["BO_ abc F: 8 E1", "BO_ 16 F: x E1", "BO_TX_BU_ abc : E1;", "SIG_VALTYPE_ abc s : 1;", "SIG_GROUP_ abc g 1 : s;",
              "VAL_ abc s 0 \"a\";", "SG_MUL_VAL_ abc s m 1-1;", "BA_ \"X\" BO_ abc 5;", "BA_ \"X\" SG_ abc s 5;",
              "EV_ v : x [0|1] \"\" 0 1 DUMMY_NODE_VECTOR0 Vector__XXX;", "SG_MUL_VAL_ {fid} {sig} {sig} x-y;",
@@ -92,6 +104,84 @@ def allowed_positions_dbc(lines):
             elif l.startswith("CM_ ") and not re.match(r'.*" *;\Z', l):
                 in_comment = True
     return ok
+
+
+SEMI_KEYWORDS = ("BO_TX_BU_ ", "VAL_ ", "VAL_TABLE_ ", "BA_DEF_ ", "BA_DEF_DEF_ ", "BA_ ", "SIG_GROUP_ ", "SIG_VALTYPE_ ", "SG_MUL_VAL_ ", "EV_ ", "CM_ ")
+
+
+def statements_dbc(lines):
+    """the complete one-line statements of a DBC text (stripped), outside comments over several lines: the material from which
+    truncated statements are derived"""
+    out = []
+    in_comment = False
+    for raw in lines:
+        l = raw.strip()
+        if in_comment:
+            if re.match(r'.*" *;\Z', l):
+                in_comment = False
+            continue
+        if l.startswith("CM_ ") and not re.match(r'.*" *;\Z', l):
+            in_comment = True
+            continue
+        if l.startswith(SEMI_KEYWORDS) and l.endswith(";") and l.count('"') % 2 == 0:
+            out.append(l)
+        elif re.match(r'BO_ +\d+ +\S+ *: *\d+ +\S', l):
+            out.append(l)
+        elif re.match(r'SG_ +\S.*: *\d+\|\d+@[01][+-] *\(.*\) *\[.*\] +"[^"]*"', l):
+            out.append(l)
+    return out
+
+
+def truncation_points_dbc(s):
+    """the lengths k for which the prefix s[:k] of the complete statement s is a truncated statement by the format's own rules
+    (decided on the text alone, without the reader): a statement that ends with ';' cut anywhere before its first ';'; a BO_ line cut
+    before its sender; an SG_ line cut before the quote that closes its unit.  A CM_ statement is only cut before its text: with the
+    text open it is the first line of a comment over several lines (ASSUMPTIONS)."""
+    if s.startswith("BO_ "):
+        m = re.match(r"BO_ +\S+ +\S+ *: *\d+", s)
+        hi = m.end() if m else 0
+    elif s.startswith("SG_ "):
+        q = s.find('"')
+        hi = s.find('"', q + 1) if q >= 0 else 0
+    else:
+        hi = s.find(";")
+        if s.startswith("CM_ ") and '"' in s:
+            hi = min(hi, s.find('"'))
+    return list(range(1, hi + 1))
+
+
+def pick_cut(rng, s, ks):
+    """one of the lengths ks: a third of the time inside a quoted text (the text is still open), a fifth of the time right after a
+    punctuation character or a blank, otherwise anywhere (also inside the keyword or a name)"""
+    r = rng.random()
+    if r < 0.35:
+        sub = [k for k in ks if s[:k].count('"') % 2 == 1]
+    elif r < 0.55:
+        sub = [k for k in ks if s[k - 1] in ' :,|@([-"']
+    else:
+        sub = ks
+    return rng.choice(sub or ks)
+
+
+def truncations_sym(line):
+    """(lo, hi, least length that is still a statement of the reader) for a line of a SYM message block: the prefixes line[:k],
+    lo <= k <= hi, are truncated statements by the format's rules (a Var=/Mux= line cut before its length field is complete, an
+    ID= line cut before its number, DLC= / CycleTime= cut before the number, Type= cut anywhere); a prefix shorter than the
+    keyword is an unknown line, a longer one a statement that cannot be read (one load error)"""
+    if line.startswith(("Var=", "Mux=")):
+        c = line.find(",")
+        if c < 0 or '"' in line[:c] or "//" in line[:c]:
+            return None
+        return 1, c + 1, 3
+    if line.startswith("ID="):
+        m = re.match(r"ID=([0-9A-Fa-f]+)h", line)
+        # cut anywhere in front of the `h` that ends the number (`ID=12` for `ID=123h` took effect as identifier 0x1 before fix C20-sym-id-without-h)
+        return 1, (m.end(1) if m else 3), 2
+    if line.startswith("DLC="):
+        return 1, 4, 3
+    if line.startswith("CycleTime="):
+        return 1, 10, 9
+    return None
 
 
 def allowed_positions_sym(lines):
@@ -226,6 +316,36 @@ def gen(rng, tier, shard, nshards):
                     b = b.replace("{fid}", m.group(1)).replace("{sig}", ms.group(1))
                     if not any(b2 == b for _, b2, _ in bads):
                         bads.append([rng.choice(before), b, "early"])
+            if rng.random() < 0.6:
+                # truncated statements derived from the file's own statements: a complete statement cut at any length (inside a
+                # quoted text, a bracket, a number, a name, the keyword), inserted as a line of its own - half of the time
+                # directly in front of a statement (a reader that carries anything from a skipped line into the next one)
+                busy = [q for q in pos if q < len(lines) and lines[q].strip() != ""]
+                if fmt == "dbc":
+                    stmts = statements_dbc(lines)
+                    for _k in range(rng.randint(1, 3)):
+                        if not stmts:
+                            break
+                        kw = rng.choice(sorted({x.split(" ")[0] for x in stmts}))     # every kind of statement equally often
+                        st = rng.choice([x for x in stmts if x.split(" ")[0] == kw])
+                        ks = truncation_points_dbc(st)
+                        if not ks:
+                            continue
+                        b = st[:pick_cut(rng, st, ks)]
+                        if not b.strip() or any(b2.strip() == b.strip() for _, b2, _ in bads):
+                            continue
+                        bads.append([rng.choice(busy) if busy and rng.random() < 0.5 else rng.choice(pos), b, "trunc"])
+                else:
+                    stmts = [(l, truncations_sym(l)) for l in lines if truncations_sym(l)]
+                    for _k in range(rng.randint(1, 3)):
+                        if not stmts:
+                            break
+                        st, (lo, hi, least) = rng.choice(stmts)
+                        k = rng.randint(lo, hi)
+                        b = st[:k]
+                        if any(b2.strip() == b.strip() for _, b2, _ in bads):
+                            continue
+                        bads.append([rng.choice(pos), b, "bad" if k >= least else "unknown"])
             if bads:
                 yield {"op": "bad", "c": {"fmt": fmt, "text": text, "ins": bads, "bad": [b for _, b, _ in bads]}}
         else:
@@ -254,6 +374,18 @@ def gen(rng, tier, shard, nshards):
         text = gen_text(rng, "sym")[:4000]
         for k in range(len(text) + 1):
             yield {"op": "cut", "c": {"fmt": "sym", "text": text, "k": k}}
+    if tier == "thorough" and shard in (1, 2, 3):
+        # every truncation of every statement of one DBC text, each inserted once directly in front of a statement
+        text = gen_text(rng, "dbc")
+        while len(text) > 6000:
+            text = gen_text(rng, "dbc")
+        lines = text.split("\n")
+        pos = allowed_positions_dbc(lines)
+        busy = [q for q in pos if q < len(lines) and lines[q].strip() != ""] or pos
+        for st in statements_dbc(lines):
+            for k in truncation_points_dbc(st):
+                if st[:k].strip():
+                    yield {"op": "bad", "c": {"fmt": "dbc", "text": text, "ins": [[rng.choice(busy), st[:k], "trunc"]], "bad": [st[:k]]}}
 
 
 def neighbours(case, rng, shard, nshards):
@@ -368,6 +500,12 @@ def features(case, impl):
     if case["op"] == "bad":
         for _, b, kind in case["c"]["ins"]:
             yield "fault=" + kind
+            if b.count('"') % 2 == 1:
+                yield "bad-line-with-open-text/" + case["c"]["fmt"]
+            if case["c"]["fmt"] == "dbc" and kind == "trunc" and b not in TRUNC_DBC:
+                yield "truncated-from-the-file/" + (b.split() or [""])[0].rstrip(":")
+            if case["c"]["fmt"] == "sym" and b not in UNKNOWN_SYM and b not in BAD_SYM:
+                yield "truncated-from-the-file/sym"
         if impl.get("printed"):
             yield "error-printed" if any(impl["printed"]) else "silent"
     if impl.get("raised"):
